@@ -32,7 +32,10 @@ PROMPT = re.compile(r"^(stopped|running|asm)> ?(.*)$")
 
 
 def spell(rng, v, allow_neg=True):
-    k = rng.below(6)
+    k = rng.below(7)
+    if k == 6:
+        # docs/literals.md: octal is spelled with a q postfix, so leading zeros do not change the base
+        return rng.pick(["0%d", "00%d", "000%d"]) % v
     if k == 0:
         return "%d" % v
     if k == 1:
